@@ -8,6 +8,7 @@ import PhotVerif.Proofs.CCLTheory
 import Mathlib.Tactic.Linarith
 import Mathlib.Data.List.Basic
 import Mathlib.Data.List.Nodup
+import PhotVerif.Gen.ForwardTable
 
 namespace PhotVerif.C04
 open PhotVerif.Model.CCL PhotVerif.CCLTheory
@@ -318,5 +319,13 @@ theorem foreground_strict (data thr : Nat → PhotVerif.Model.V) (mask : Nat →
 -- non-vacuity: 3×5 image, two 8-connected components + an isolated pixel, npixels = 2
 example : (detect 3 5 true (fun p => [1,1,0,0,1, 0,0,0,1,1, 1,0,1,0,0].getD p 0 == 1) 2).map (·.data)
     = some [1,1,0,0,2, 0,0,0,2,2, 0,0,2,0,0] := by decide +kernel
+
+/-! ### no delegating call in this property's modules drops an argument it holds (table regenerated from the source) -/
+
+/-- TABLE OBLIGATION: in the modules of this property, every call that delegates to another photutils function, method or
+    constructor passes on each value the caller holds under the callee's own parameter name (its own parameters, `self.<name>`
+    attributes set in `__init__`) - dropped `subpixels`, `mask`, `connectivity`, `include_localbkg` ... keywords were a recurring
+    kind of seeded change -/
+theorem no_dropped_arguments : Gen.ForwardTable.droppedIn Gen.ForwardTable.scopeC04 = [] := by decide
 
 end PhotVerif.C04
